@@ -76,6 +76,8 @@ type system struct {
 	closed   bool
 	t0       int64
 	lastSeen int
+	hold     bool // C16R: feedback is built but kept for the concurrent scenario
+	held     [][]rtcp.Packet
 }
 
 type failure struct{ key, msg string }
@@ -241,6 +243,10 @@ func (sys *system) feedback(pat int) error {
 	}
 	deliver := func(l []rtcp.Packet) error {
 		if len(l) == 0 {
+			return nil
+		}
+		if sys.hold {
+			sys.held = append(sys.held, l)
 			return nil
 		}
 		if err := sys.bwe.WriteRTCP(l, interceptor.Attributes{}); err != nil {
